@@ -139,7 +139,7 @@ def _shard(arg):
         "C02Machine", Checker, rec, holder, CFG=CFG, N=5, VALUES=st.sampled_from([0, 1, 1, 2, 7, 2**32 - 1, 2**32, 2**40]),
         SELF_MERGE=True, SAVELOAD=False, MAXKEY=24, draw_universe=_draw_universe,
     )
-    common.run_machine(M, common.derive_seed(seed, "C02", shard), n_examples, steps, holder, rec)
+    common.run_machine(M, common.derive_seed(seed, "C02", shard), n_examples, steps, holder, rec, retry=lambda c_: machines.replay_trace(c_, Checker))
     return rec
 
 
